@@ -17,6 +17,7 @@ func checkC14(r *Result) {
 	r.NotDecided = "behaviour for adversarial encodings beyond 'decode error => reject before any state change'; int64 narrowing of decoded amounts; that the EVM side accepts the attested bytes (C15)"
 	r.Assumptions = []string{"the oracle's GetAggregateByIndex returns the stored aggregate and its timestamp", "x/bank mints and sends exactly the coins given"}
 	r.rule("CLAIM-GUARDS", "the deposit mint is dominated by: aggregate exists, not flagged, not claimed, reporter power >= threshold at report time, age >= 12h, value decoded")
+	r.rule("CLAIM-LOOKUPS", "the aggregate lookup is confined to the deposit's query and the threshold lookup to checkpoints strictly before the report")
 	r.rule("CLAIM-ONCE", "the claimed flag is stored before the mint on every path, keyed by the deposit id")
 	r.rule("CLAIM-ROUTING", "tip -> message sender, amount - tip -> decoded recipient, both out of the minted amount")
 	r.rule("WITHDRAW-ID", "the withdrawal id is a read-modify-write counter starting at 1 and names the attested aggregate")
@@ -300,6 +301,95 @@ func checkC14(r *Result) {
 		}
 		r.check(n >= 2, "NO-WITHDRAWAL-REPORT", "(x/oracle/keeper.msgServer).SubmitValue # routes to the report store", P.Pos(sub.Pos()), fmt.Sprintf("%d", n))
 	}
+	// ---- the two lookups ClaimDeposit relies on: "the aggregate of this query" and "the validator set in force
+	// strictly before the report"
+	if g := P.Func("(x/oracle/keeper.Keeper).GetAggregateByIndex"); g == nil {
+		r.broken("anchor GetAggregateByIndex does not resolve")
+	} else {
+		r.fn(FuncName(g))
+		n := 0
+		for _, cs := range P.CallSitesIn(g) {
+			if !strings.HasPrefix(cs.Desc(), "coll:x/oracle/keeper.Keeper.Aggregates.") {
+				continue
+			}
+			switch cs.Method {
+			case "Walk", "Iterate", "IterateRaw":
+				n++
+				chain, args := rangeChain(NewTermer().Of(Arg(cs.Instr, 1)))
+				pfx := args["NewPrefixedPairRange"]
+				ok := pfx != nil && pfx.Op == "param:2:byte"
+				r.check(ok, "CLAIM-LOOKUPS", "(x/oracle/keeper.Keeper).GetAggregateByIndex # the scan is confined to the aggregates of the query id", P.Pos(cs.Pos()), fmt.Sprintf("range %v ; prefixed by the query id: %v", chain, ok))
+			}
+		}
+		r.check(n >= 1, "CLAIM-LOOKUPS", "(x/oracle/keeper.Keeper).GetAggregateByIndex # scans the Aggregates collection", P.Pos(g.Pos()), fmt.Sprint(n))
+	}
+	if g := P.Func("(x/bridge/keeper.Keeper).GetValidatorSetTimestampBefore"); g == nil {
+		r.broken("anchor GetValidatorSetTimestampBefore does not resolve")
+	} else {
+		r.fn(FuncName(g))
+		// the range of the scan: EndExclusive(target) Descending, first hit taken
+		var cb *ssa.Function
+		nWalk := 0
+		for _, cs := range P.CallSitesIn(g) {
+			if cs.Desc() != "coll:x/bridge/keeper.Keeper.ValidatorCheckpointParamsMap.Walk" {
+				continue
+			}
+			nWalk++
+			chain, args := rangeChain(NewTermer().Of(Arg(cs.Instr, 1)))
+			b := args["EndExclusive"]
+			ok := strings.Join(chain, " ") == "EndExclusive Descending" && b != nil && b.Op == "param:2:uint64"
+			r.check(ok, "CLAIM-LOOKUPS", "(x/bridge/keeper.Keeper).GetValidatorSetTimestampBefore # scans checkpoints strictly before the target, newest first", P.Pos(cs.Pos()), fmt.Sprintf("range %v", chain))
+			if mc, ok := Arg(cs.Instr, 2).(*ssa.MakeClosure); ok {
+				cb, _ = mc.Fn.(*ssa.Function)
+			}
+		}
+		r.check(nWalk == 1 && cb != nil, "CLAIM-LOOKUPS", "(x/bridge/keeper.Keeper).GetValidatorSetTimestampBefore # one scan with a literal callback", P.Pos(g.Pos()), fmt.Sprint(nWalk))
+		// every success return hands out the variable that only the scan callback assigns (with the key it visits)
+		okRet, nRet := true, 0
+		why := ""
+		for _, ret := range SuccessReturns(g) {
+			nRet++
+			rr := ret
+			ld, isLoad := rr.Results[0].(*ssa.UnOp)
+			var cell *ssa.Alloc
+			if isLoad {
+				cell, _ = ld.X.(*ssa.Alloc)
+			}
+			if cell == nil {
+				okRet, why = false, "the value returned at "+P.Pos(rr.Pos())+" is not the scan's result variable"
+				continue
+			}
+			for _, ref := range *cell.Referrers() {
+				switch x := ref.(type) {
+				case *ssa.Store:
+					if x.Addr == ssa.Value(cell) {
+						okRet, why = false, "the result variable is assigned outside the scan callback at "+P.Pos(x.Pos())
+					}
+				case *ssa.MakeClosure:
+					if cb == nil || x.Fn != ssa.Value(cb) {
+						okRet, why = false, "the result variable is captured by another closure"
+					}
+				}
+			}
+		}
+		if cb != nil {
+			for _, b := range cb.Blocks {
+				for _, in := range b.Instrs {
+					if st, ok := in.(*ssa.Store); ok {
+						if _, fv := st.Addr.(*ssa.FreeVar); fv {
+							if p, isP := st.Val.(*ssa.Parameter); !isP || p != cb.Params[0] {
+								okRet, why = false, "the callback assigns something other than the visited key at "+P.Pos(st.Pos())
+							}
+						}
+					}
+				}
+			}
+			sh := analyseCallback(P, cb)
+			r.check(sh.stopAlways, "CLAIM-LOOKUPS", "(x/bridge/keeper.Keeper).GetValidatorSetTimestampBefore # the scan stops at the first (newest) checkpoint", P.Pos(cb.Pos()), fmt.Sprintf("stops always: %v", sh.stopAlways))
+		}
+		r.check(okRet && nRet >= 1, "CLAIM-LOOKUPS", "(x/bridge/keeper.Keeper).GetValidatorSetTimestampBefore # every success return is the key found by the strictly-before scan", P.Pos(g.Pos()), fmt.Sprintf("%d success returns ; %s", nRet, why))
+	}
+	r.minCount("CLAIM-LOOKUPS", 6)
 	r.minCount("CLAIM-GUARDS", 6)
 	r.minCount("CLAIM-ONCE", 3)
 	r.minCount("WITHDRAW-ID", 3)
